@@ -31,6 +31,7 @@ type e3Call struct {
 	AEUser  string            `json:"ae_user,omitempty"`
 	AEAdmin bool              `json:"ae_admin,omitempty"`
 	ReqID   string            `json:"req_id,omitempty"`
+	CtxMs   int               `json:"ctx_ms,omitempty"`
 }
 
 type c17BackendRec struct {
@@ -271,7 +272,12 @@ func c17GenCases(rng *rand.Rand, wd *c17World, keepFrac float64, history bool) {
 							namedCls = "own"
 						}
 					}
-					wd.add(wd.agentCall(id, ep, nm.id, namedCls, rd.rid, ridCls, rd.owner))
+					c := wd.agentCall(id, ep, nm.id, namedCls, rd.rid, ridCls, rd.owner)
+					if ep == "pending" && !authorised {
+						// must be rejected at once; should it be admitted instead, do not serve the 30 s wait for requests
+						c.Call.CtxMs = 500
+					}
+					wd.add(c)
 				}
 			}
 		}
